@@ -203,6 +203,33 @@ def run(repo, rep):
     rep.check(not (grow and "round_up" in str(norm(grow[0].value))), "C05-f", f"{T}:linear_allocate_live_ranges", "the total advances by the size of the range (the next address is aligned separately)",
               f"`total_sz += {str(norm(grow[0].value)) if grow else ''}`: total above the highest end address")
     rep.floor("C05-f", 2)
+    # LinearAlloc: what is returned is a running maximum: every store into the returned name inside the loop is `+=` of a size or max(itself, ..)
+    lf = ta.func("linear_allocate_live_ranges")
+    rets = [r for r in ast.walk(lf) if isinstance(r, ast.Return) and isinstance(r.value, ast.Name)]
+    if len(rets) != 1:
+        raise AnalysisError("linear_allocate_live_ranges: `return <name>` not found")
+    rn = rets[0].value.id
+    for st in walk_no_nested(lf):
+        tgts = [t for t in (st.targets if isinstance(st, ast.Assign) else [st.target] if isinstance(st, ast.AugAssign) else []) if isinstance(t, ast.Name) and t.id == rn]
+        if not tgts:
+            continue
+        in_loop = any(isinstance(p_, (ast.For, ast.While)) and any(x is st for x in ast.walk(p_)) for p_ in ast.walk(lf))
+        if isinstance(st, ast.AugAssign):
+            ok_ = isinstance(st.op, ast.Add)
+        else:
+            v_ = st.value
+            ok_ = (not in_loop and isinstance(v_, ast.Constant) and v_.value == 0) or (isinstance(v_, ast.Call) and call_name(v_) == "max" and any(str(norm(a)) == rn for a in v_.args)) or _is_round_up(v_, {"lr.get_alignment()", "max(alloc_granularity, lr.get_alignment())", "max(lr.get_alignment(), alloc_granularity)"})
+        rep.check(ok_, "C05-c", f"{T}:linear_allocate_live_ranges", f"`{str(norm(st))[:70]}` keeps the returned total a running maximum", "the returned name is overwritten inside the loop: a range that only shares an earlier address (equal compression configuration, equivalent LUT) and is processed last sets the total to its own end, below the highest end address")
+    # HillClimb: the 'nothing found yet' sentinel is above every reachable footprint (40-bit address space on Ethos-U65)
+    hi = repo.mod("hillclimb_allocation").func("HillClimbAllocator.__init__")
+    bs = [st for st in ast.walk(hi) if isinstance(st, (ast.Assign, ast.AnnAssign)) and str(norm(st.targets[0] if isinstance(st, ast.Assign) else st.target)) == "self.best_size"]
+    if len(bs) != 1:
+        raise AnalysisError("HillClimbAllocator.__init__: best_size initialisation not found")
+    from ..astutil import try_fold as _tf5
+
+    v5 = _tf5(bs[0].value)
+    rep.check(isinstance(v5, int) and v5 >= (1 << 41), "C05-d", f"{H}:HillClimbAllocator.__init__", "best_size starts above every reachable footprint (>= 2^41)",
+              f"starts at {v5}: the initial heuristic allocation is aborted (`size > best_size`) as soon as it passes that value, the remaining ranges keep address -1 and no search runs")
     rep.floor("C05-c", 6)
 
     # ---------------------------------------------------------------- d
